@@ -47,6 +47,8 @@ var edgeWords = []string{
 	// floor and ceiling of B/k: where a divisor-scaling factor B/(v+1) and its look-alikes (B-1)/v part ways
 	"3333333333333333333", "3333333333333333334", "1666666666666666666", "1666666666666666667",
 	"1428571428571428571", "1111111111111111111", "2500000000000000000", "2000000000000000000",
+	// binary boundaries: two valid words can sum to 2^64 - 1 or 2^64 (2^63 - 1, 2^63, 2^62, 2^64 - 10^19 and its neighbour)
+	"9223372036854775807", "9223372036854775808", "4611686018427387904", "8446744073709551616", "8446744073709551615",
 }
 
 // Digits returns n decimal digits (first one non-zero) following one of the
